@@ -180,7 +180,7 @@ PROPERTIES = {
     "C11": {
         "level": "other",
         "targets": [F("transforms.indices_to_json_extract"), F("transforms.json_extract_precedence"), F("transforms.flatten_value_cast_as_varchar"), F("transforms.semi_structured_types"),
-                    F("transforms.array_size"), F("transforms.try_parse_json"), F("transforms.split"), F("transforms.json_extract_cased_as_varchar"),
+                    F("transforms.flatten"), F("transforms.array_size"), F("transforms.try_parse_json"), F("transforms.split"), F("transforms.json_extract_cased_as_varchar"),
                     F("cursor.FakeSnowflakeCursor._transform")],
         "also": {"fakesnow.transforms.semi_structured_types": [r"C01\.semi\."]},
         "bounded": "bounded.C11",
